@@ -341,6 +341,7 @@ func run(o *options) int {
 	timeout := 10
 	if o.tier == "thorough" {
 		timeout = 60
+		crossCheckS = 15
 	}
 	if o.timeoutS > 0 {
 		timeout = o.timeoutS
@@ -452,6 +453,7 @@ func report(o *options, g *Gen, verdicts []*Verdict, fnReports any, underContrac
 	}
 	total, discharged, covers, coversOK := 0, 0, 0, 0
 	wins := map[string]int{}
+	crossChecked := 0
 	solverS := 0.0
 	var violations []string
 	var knownLines []string
@@ -476,6 +478,9 @@ func report(o *options, g *Gen, verdicts []*Verdict, fnReports any, underContrac
 		if v.OK {
 			discharged++
 			wins[v.Solver]++
+			if v.Agree >= 2 {
+				crossChecked++
+			}
 		} else {
 			failed = append(failed, v)
 		}
@@ -533,6 +538,7 @@ func report(o *options, g *Gen, verdicts []*Verdict, fnReports any, underContrac
 			"functions_under_contract": underContract,
 			"functions":              fnReports,
 			"solver_wins":            wins,
+			"discharged_by_two_or_more_solvers": crossChecked,
 			"solver_seconds":         round3(solverS),
 			"load_seconds":           round3(loadS),
 			"generate_seconds":       round3(genS),
